@@ -1,4 +1,5 @@
 import OpusProofs.Ctl
+import OpusProofs.EncDecideHonour
 /-
   OpusProofs.CtlRanges — 32-bit range lemmas for the integer arithmetic of the ctl layer and of
   the budget computation at the head of opus_encode_native: on the legal domain every
@@ -64,22 +65,94 @@ def budgetIntermediates (s : DSt) (f out : Int) : List Int :=
 /-- For a legal rate, 1–2 channels, a stored bit-rate in its `CtlInv` range, one of the nine Opus
     frame sizes and any positive `int` buffer size, no intermediate of the budget computation
     overflows (CBR and VBR alike). -/
+/-- The same list over plain integers (`fs`, `ch`, `ub` = Fs, channels, user_bitrate_bps). -/
+def budgetList (fs ch ub f out : Int) : List Int :=
+  let maxDataBytes := min 1276 out
+  let bitrate := if ub = -1000 then 60 * fs / f + fs * ch else if ub = -1 then maxDataBytes * 8 * fs / f else ub
+  let fr12 := 12 * fs / f
+  let cbr := min ((12 * bitrate / 8 + fr12 / 2) / fr12) maxDataBytes
+  let fr := fs / f
+  [maxDataBytes, bitrate, 12 * fs, fr12, 12 * bitrate, 12 * bitrate / 8, 12 * bitrate / 8 + fr12 / 2, cbr, cbr * fr12,
+   cbr * fr12 * 8, cbr * fr12 * 8 / 12, max 1 cbr, fr, 3 * fr, 3 * fr * 8, maxDataBytes * fr, max 1 cbr * fr,
+   fr * maxDataBytes, fr * maxDataBytes * 8, fr * max 1 cbr, fr * max 1 cbr * 8]
+
+theorem budget_core_8000 (ch ub f out : Int) (hch : ch = 1 ∨ ch = 2)
+    (hbr : ub = -1000 ∨ ub = -1 ∨ (500 ≤ ub ∧ ub ≤ 300000 * ch))
+    (hf : f = 8000 / 400 ∨ f = 8000 / 200 ∨ f = 8000 / 100 ∨ f = 8000 / 50 ∨ f = 8000 / 25 ∨ f = 3 * 8000 / 50 ∨ f = 4 * 8000 / 50 ∨
+          f = 5 * 8000 / 50 ∨ f = 6 * 8000 / 50) (hout : 0 < out ∧ out ≤ 2147483647) :
+    ∀ x ∈ budgetList 8000 ch ub f out, I32 x := by
+  unfold budgetList I32
+  simp only [List.mem_cons, List.mem_nil_iff, or_false, forall_eq_or_imp, forall_eq]
+  rcases hf with h | h | h | h | h | h | h | h | h <;>
+    ((try simp only [Int.reduceDiv, Int.reduceMul] at h); subst h; (try simp only [Int.reduceDiv, Int.reduceMul])) <;>
+    (refine ⟨?_, ?_, ?_, ?_, ?_, ?_, ?_, ?_, ?_, ?_, ?_, ?_, ?_, ?_, ?_, ?_, ?_, ?_, ?_, ?_, ?_⟩ <;> (try split) <;> (try split) <;> omega)
+
+theorem budget_core_12000 (ch ub f out : Int) (hch : ch = 1 ∨ ch = 2)
+    (hbr : ub = -1000 ∨ ub = -1 ∨ (500 ≤ ub ∧ ub ≤ 300000 * ch))
+    (hf : f = 12000 / 400 ∨ f = 12000 / 200 ∨ f = 12000 / 100 ∨ f = 12000 / 50 ∨ f = 12000 / 25 ∨ f = 3 * 12000 / 50 ∨ f = 4 * 12000 / 50 ∨
+          f = 5 * 12000 / 50 ∨ f = 6 * 12000 / 50) (hout : 0 < out ∧ out ≤ 2147483647) :
+    ∀ x ∈ budgetList 12000 ch ub f out, I32 x := by
+  unfold budgetList I32
+  simp only [List.mem_cons, List.mem_nil_iff, or_false, forall_eq_or_imp, forall_eq]
+  rcases hf with h | h | h | h | h | h | h | h | h <;>
+    ((try simp only [Int.reduceDiv, Int.reduceMul] at h); subst h; (try simp only [Int.reduceDiv, Int.reduceMul])) <;>
+    (refine ⟨?_, ?_, ?_, ?_, ?_, ?_, ?_, ?_, ?_, ?_, ?_, ?_, ?_, ?_, ?_, ?_, ?_, ?_, ?_, ?_, ?_⟩ <;> (try split) <;> (try split) <;> omega)
+
+theorem budget_core_16000 (ch ub f out : Int) (hch : ch = 1 ∨ ch = 2)
+    (hbr : ub = -1000 ∨ ub = -1 ∨ (500 ≤ ub ∧ ub ≤ 300000 * ch))
+    (hf : f = 16000 / 400 ∨ f = 16000 / 200 ∨ f = 16000 / 100 ∨ f = 16000 / 50 ∨ f = 16000 / 25 ∨ f = 3 * 16000 / 50 ∨ f = 4 * 16000 / 50 ∨
+          f = 5 * 16000 / 50 ∨ f = 6 * 16000 / 50) (hout : 0 < out ∧ out ≤ 2147483647) :
+    ∀ x ∈ budgetList 16000 ch ub f out, I32 x := by
+  unfold budgetList I32
+  simp only [List.mem_cons, List.mem_nil_iff, or_false, forall_eq_or_imp, forall_eq]
+  rcases hf with h | h | h | h | h | h | h | h | h <;>
+    ((try simp only [Int.reduceDiv, Int.reduceMul] at h); subst h; (try simp only [Int.reduceDiv, Int.reduceMul])) <;>
+    (refine ⟨?_, ?_, ?_, ?_, ?_, ?_, ?_, ?_, ?_, ?_, ?_, ?_, ?_, ?_, ?_, ?_, ?_, ?_, ?_, ?_, ?_⟩ <;> (try split) <;> (try split) <;> omega)
+
+theorem budget_core_24000 (ch ub f out : Int) (hch : ch = 1 ∨ ch = 2)
+    (hbr : ub = -1000 ∨ ub = -1 ∨ (500 ≤ ub ∧ ub ≤ 300000 * ch))
+    (hf : f = 24000 / 400 ∨ f = 24000 / 200 ∨ f = 24000 / 100 ∨ f = 24000 / 50 ∨ f = 24000 / 25 ∨ f = 3 * 24000 / 50 ∨ f = 4 * 24000 / 50 ∨
+          f = 5 * 24000 / 50 ∨ f = 6 * 24000 / 50) (hout : 0 < out ∧ out ≤ 2147483647) :
+    ∀ x ∈ budgetList 24000 ch ub f out, I32 x := by
+  unfold budgetList I32
+  simp only [List.mem_cons, List.mem_nil_iff, or_false, forall_eq_or_imp, forall_eq]
+  rcases hf with h | h | h | h | h | h | h | h | h <;>
+    ((try simp only [Int.reduceDiv, Int.reduceMul] at h); subst h; (try simp only [Int.reduceDiv, Int.reduceMul])) <;>
+    (refine ⟨?_, ?_, ?_, ?_, ?_, ?_, ?_, ?_, ?_, ?_, ?_, ?_, ?_, ?_, ?_, ?_, ?_, ?_, ?_, ?_, ?_⟩ <;> (try split) <;> (try split) <;> omega)
+
+theorem budget_core_48000 (ch ub f out : Int) (hch : ch = 1 ∨ ch = 2)
+    (hbr : ub = -1000 ∨ ub = -1 ∨ (500 ≤ ub ∧ ub ≤ 300000 * ch))
+    (hf : f = 48000 / 400 ∨ f = 48000 / 200 ∨ f = 48000 / 100 ∨ f = 48000 / 50 ∨ f = 48000 / 25 ∨ f = 3 * 48000 / 50 ∨ f = 4 * 48000 / 50 ∨
+          f = 5 * 48000 / 50 ∨ f = 6 * 48000 / 50) (hout : 0 < out ∧ out ≤ 2147483647) :
+    ∀ x ∈ budgetList 48000 ch ub f out, I32 x := by
+  unfold budgetList I32
+  simp only [List.mem_cons, List.mem_nil_iff, or_false, forall_eq_or_imp, forall_eq]
+  rcases hf with h | h | h | h | h | h | h | h | h <;>
+    ((try simp only [Int.reduceDiv, Int.reduceMul] at h); subst h; (try simp only [Int.reduceDiv, Int.reduceMul])) <;>
+    (refine ⟨?_, ?_, ?_, ?_, ?_, ?_, ?_, ?_, ?_, ?_, ?_, ?_, ?_, ?_, ?_, ?_, ?_, ?_, ?_, ?_, ?_⟩ <;> (try split) <;> (try split) <;> omega)
+
+theorem budgetIntermediates_eq (s : DSt) (f out : Int) (hf0 : f ≠ 0) :
+    budgetIntermediates s f out = budgetList s.fs s.channels s.userBitrate f out := by
+  unfold budgetIntermediates budgetList userBitrateToBitrate
+  consts
+  simp only [hf0, ite_false]
+
 theorem budget_no_overflow (s : DSt) (hfs : s.fs ∈ rates) (hch : s.channels = 1 ∨ s.channels = 2)
     (hbr : s.userBitrate = -1000 ∨ s.userBitrate = -1 ∨ (500 ≤ s.userBitrate ∧ s.userBitrate ≤ 300000 * s.channels))
     (f out : Int) (hf : f ∈ apiSizes s.fs) (hout : 0 < out ∧ out ≤ 2147483647) :
     ∀ x ∈ budgetIntermediates s f out, I32 x := by
+  have hf0 : f ≠ 0 := by
+    have := apiSizes_pos hfs hf; omega
+  rw [budgetIntermediates_eq s f out hf0]
   simp only [rates, List.mem_cons, List.mem_nil_iff, or_false] at hfs
   simp only [apiSizes, List.mem_cons, List.mem_nil_iff, or_false] at hf
-  unfold budgetIntermediates userBitrateToBitrate I32
-  consts
-  simp only [List.mem_cons, List.mem_nil_iff, or_false, forall_eq_or_imp, forall_eq]
   generalize s.fs = fs at *
-  generalize s.channels = ch at *
-  generalize s.userBitrate = ub at *
-  rcases hfs with rfl | rfl | rfl | rfl | rfl <;>
-    rcases hf with h | h | h | h | h | h | h | h | h <;>
-    ((try simp only [Int.reduceDiv, Int.reduceMul] at h); subst h; (try simp only [Int.reduceDiv, Int.reduceMul, Int.reduceEq, ite_true, ite_false, reduceIte])) <;>
-    (refine ⟨?_, ?_, ?_, ?_, ?_, ?_, ?_, ?_, ?_, ?_, ?_, ?_, ?_, ?_, ?_, ?_, ?_, ?_, ?_, ?_, ?_⟩ <;> (try split) <;> (try split) <;> omega)
+  rcases hfs with rfl | rfl | rfl | rfl | rfl
+  · exact budget_core_8000 _ _ f out hch hbr hf hout
+  · exact budget_core_12000 _ _ f out hch hbr hf hout
+  · exact budget_core_16000 _ _ f out hch hbr hf hout
+  · exact budget_core_24000 _ _ f out hch hbr hf hout
+  · exact budget_core_48000 _ _ f out hch hbr hf hout
 
 /-! ### frame_size_select (:768-791) -/
 
